@@ -10,7 +10,7 @@ def run(run):
     n = 0
     for cfg in cfgs:
         n += machine.check_family(run, cfg, f"Machine ({cfg})")
-    nr = machine.check_random(run, FAMILY, 1500 if quick else 20000, "MachineRand: seeded random programs")
+    nr = machine.check_random(run, FAMILY, 4000 if quick else 30000, "MachineRand: seeded random programs")
     run.cov["random_programs"] = nr
     n += nr
     n += flow_traces(run, quick)
@@ -41,6 +41,11 @@ EXTRA = [
     "do if 1 then 2 end catch all 'not boolean' end",
     "do while 'x' do 1 end catch all 'not boolean' end",
     "def f() do break end; do f() catch all 'stray' end",
+    # a set / map changed between two loops over it: each loop takes the elements the collection has THEN
+    "def s = <<3, 1>>; def r = []; for x in s do append(r, x) end; remove(s, 3); append(s, 2); for x in s do append(r, x) end; r",
+    "def s = <<3, 1>>; def r = [string(s)]; remove(s, 1); append(s, 0); for x in s do append(r, x) end; append(s, 5); remove(s, 0); for x in s do append(r, x) end; r",
+    "def m = <<<2 => 'b', 1 => 'a'>>>; def r = []; for k in keys m do append(r, k) end; remove(m, 1); m[0] = 'z'; for k in keys m do append(r, k) end; for v in m do append(r, v) end; r",
+    "def s = <<2>>; def r = []; for i in [1, 2, 3] do append(s, i * 10); for x in s do append(r, x) end end; r",
 ]
 
 
